@@ -1,16 +1,23 @@
 import NurbsVerif.Model.InsertA51
 
 /-!
-  A5.1 as coded (`Geomdl.knotInsertionA51`, the literal transcription of the loops of
-  `helpers.knot_insertion`) against the index-by-index model `Geomdl.knotInsertion`, part 1:
+  A5.1 as coded (the literal transcriptions of the loops of `helpers.knot_insertion`: `Geomdl.knotInsertionA51`
+  for the point branch, `Geomdl.knotInsertionRowsA51` for the list-of-rows branch) against the index-by-index
+  models (`Geomdl.knotInsertion`, `Geomdl.knotInsertionRows`), part 1.
+
+  The loops of the helper do not depend on what an element of `ctrlpts` is, except for the one statement that
+  blends `temp[i]` with `temp[i + 1]`.  The development is therefore GENERIC in the element type `List β` (a
+  point `List K`, or a row `List (List K)`) and in the blend `f i L a b` (the new value of slot `i` at level `L`
+  from the old values `a = temp[i]`, `b = temp[i + 1]`): `gA51 f` are the loops (`gInner` / `gOuter` are
+  `a51Inner` / `a51Outer` with `f` for the blend), `gStep f` is the parallel step of the index models.
 
   * a sequential in-place sweep `for i in range(m): a[i] = g(a, i)` whose body reads only slots `≥ i` of the
     current array is the parallel map (`foldl_set_range_dep`);
   * hence the `temp` array of the code after the initialisation loop / after the `j`-th sweep reads, slot by
-    slot, like the model's `insTempInit` / `insTempStep` (`TempRel`: the code's array keeps its `p + 1` slots,
+    slot, like the model's `insTempInit` / `gStep` (`TempRel`: the code's array keeps its `p + 1` slots,
     the unused ones stay `[]`, the model's array is shorter and is read through the `[]`-padded reader).
 
-  No algebra is used: the statements hold for every carrier with the operations the model is written over.
+  No algebra is used: the statements hold for every carrier.
 -/
 namespace Geomdl
 namespace A51L
@@ -43,10 +50,10 @@ theorem foldl_set_range {α : Type} (f : Nat → α) (t : List α) (m : Nat) (hm
   foldl_set_range_dep (fun _ => f) t (fun _ _ _ => rfl) m hm
 
 section
-variable {K : Type}
+variable {β : Type}
 
 /-- reading `map g (range m) ++ drop m t` through the padded reader -/
-theorem ptsGet_map_drop (g : Nat → List K) (t : List (List K)) (m x : Nat) :
+theorem ptsGet_map_drop (g : Nat → List β) (t : List (List β)) (m x : Nat) :
     ptsGet ((List.range m).map g ++ t.drop m) x = if x < m then g x else ptsGet t x := by
   unfold ptsGet
   simp only [List.getD_eq_getElem?_getD]
@@ -58,11 +65,11 @@ theorem ptsGet_map_drop (g : Nat → List K) (t : List (List K)) (m x : Nat) :
     congr 2; omega
 
 /-- the code's `temp` (always `p + 1` slots) and the model's `temp` read alike at every index -/
-def TempRel (p : Nat) (lit mod : List (List K)) : Prop :=
+def TempRel (p : Nat) (lit mod : List (List β)) : Prop :=
   lit.length = p + 1 ∧ ∀ x, ptsGet lit x = ptsGet mod x
 
 /-- after the initialisation loop: `temp[i] = ctrlpts[k - p + i]` for `i ≤ p - s`, the other slots `[]` -/
-theorem tempRel_init (p : Nat) (P : List (List K)) (r s k : Nat) (hs : s ≤ p) :
+theorem tempRel_init (p : Nat) (P : List (List β)) (r s k : Nat) (hs : s ≤ p) :
     TempRel p (a51Init p P r s k).temp (insTempInit P k p s) := by
   have h : (a51Init p P r s k).temp
       = (List.range (p + 1 - s)).map (fun i => ptsGet P (k - p + i)) ++ (List.replicate (p + 1) []).drop (p + 1 - s) := by
@@ -79,7 +86,7 @@ theorem tempRel_init (p : Nat) (P : List (List K)) (r s k : Nat) (hs : s ≤ p) 
     · rw [if_pos hx]
       simp [ptsGet, hx]
     · rw [if_neg hx]
-      have h1 : ptsGet (List.replicate (p + 1) ([] : List K)) x = [] := by
+      have h1 : ptsGet (List.replicate (p + 1) ([] : List β)) x = [] := by
         simp only [ptsGet, List.getD_eq_getElem?_getD, List.getElem?_replicate]
         split <;> rfl
       have h2 : ptsGet ((List.range (p - s + 1)).map (fun i => ptsGet P (k - p + i))) x = [] := by
@@ -88,46 +95,62 @@ theorem tempRel_init (p : Nat) (P : List (List K)) (r s k : Nat) (hs : s ≤ p) 
         rfl
       rw [h1, h2]
 
-variable [Add K] [Sub K] [Mul K] [Div K] [One K]
+/-! ### the loops, generic in the blend `f i L temp[i] temp[i + 1]` -/
+
+variable (f : Nat → Nat → List β → List β → List β)
+
+/-- body of `for i in range(0, degree - j - s + 1)`: slot `i` receives the blend of the CURRENT slots `i`, `i + 1` -/
+def gInner (L : Nat) (temp : List (List β)) (i : Nat) : List (List β) :=
+  temp.set i (f i L (ptsGet temp i) (ptsGet temp (i + 1)))
+
+/-- body of `for j in range(1, num + 1)` -/
+def gOuter (p num s k : Nat) (st : A51St β) (j : Nat) : A51St β :=
+  let L := k - p + j
+  let temp := (List.range (p + 1 - j - s)).foldl (gInner f L) st.temp
+  let cp1 := st.cp.set L (ptsGet temp 0)
+  let cp2 := cp1.set (k + num - j - s) (ptsGet temp (p - j - s))
+  { cp := cp2, temp := temp }
+
+/-- the whole routine -/
+def gA51 (p : Nat) (P : List (List β)) (num s k : Nat) : List (List β) :=
+  let st := (List.range' 1 num).foldl (gOuter f p num s k) (a51Init p P num s k)
+  let L := k - p + num
+  (List.range' (L + 1) (k - s - (L + 1))).foldl (fun c i => c.set i (ptsGet st.temp (i - L))) st.cp
 
 /-- the new value of slot `i` in the sweep at level `L` -/
-def blend (U : Nat → K) (u : K) (k L : Nat) (t : List (List K)) (i : Nat) : List K :=
-  List.zipWith (fun e1 e2 => insAlpha U u k i L * e2 + (1 - insAlpha U u k i L) * e1) (ptsGet t i) (ptsGet t (i + 1))
+def blend (L : Nat) (t : List (List β)) (i : Nat) : List β := f i L (ptsGet t i) (ptsGet t (i + 1))
 
-theorem a51Inner_eq (U : Nat → K) (u : K) (k L : Nat) :
-    a51Inner U u k L = fun t i => t.set i (blend U u k L t i) := rfl
+/-- the parallel step of the index models (`insTempStep`, `insTempStepRows`) -/
+def gStep (k p s j : Nat) (t : List (List β)) : List (List β) :=
+  (List.range (p - j - s + 1)).map (blend f (k - p + j) t) ++ t.drop (p - j - s + 1)
 
-theorem blend_congr (U : Nat → K) (u : K) (k L : Nat) (t t' : List (List K)) (i : Nat)
+theorem blend_congr (L : Nat) (t t' : List (List β)) (i : Nat)
     (h0 : ptsGet t' i = ptsGet t i) (h1 : ptsGet t' (i + 1) = ptsGet t (i + 1)) :
-    blend U u k L t' i = blend U u k L t i := by
+    blend f L t' i = blend f L t i := by
   unfold blend; rw [h0, h1]
 
 /-- the in-place sweep of the code is the parallel step -/
-theorem sweep_eq (U : Nat → K) (u : K) (k L : Nat) (t : List (List K)) (m : Nat) (hm : m ≤ t.length) :
-    (List.range m).foldl (a51Inner U u k L) t = (List.range m).map (blend U u k L t) ++ t.drop m := by
-  rw [a51Inner_eq]
-  refine foldl_set_range_dep (blend U u k L) t ?_ m hm
+theorem sweep_eq (L : Nat) (t : List (List β)) (m : Nat) (hm : m ≤ t.length) :
+    (List.range m).foldl (gInner f L) t = (List.range m).map (blend f L t) ++ t.drop m := by
+  refine foldl_set_range_dep (blend f L) t ?_ m hm
   intro i t' h
   apply blend_congr <;> simp only [ptsGet, List.getD_eq_getElem?_getD] <;> rw [h _ (by omega)]
 
-theorem insTempStep_eq (U : Nat → K) (u : K) (k p s j : Nat) (t : List (List K)) :
-    insTempStep U u k p s j t
-      = (List.range (p - j - s + 1)).map (blend U u k (k - p + j) t) ++ t.drop (p - j - s + 1) := rfl
-
-/-- one sweep of the code keeps the relation with one `insTempStep` of the model -/
-theorem tempRel_step (U : Nat → K) (u : K) (k p s j : Nat) (lit mod : List (List K)) (hj : j + s ≤ p)
+/-- one sweep of the code keeps the relation with one parallel step of the model -/
+theorem tempRel_step (k p s j : Nat) (lit mod : List (List β)) (hj : j + s ≤ p)
     (h : TempRel p lit mod) :
-    TempRel p ((List.range (p + 1 - j - s)).foldl (a51Inner U u k (k - p + j)) lit) (insTempStep U u k p s j mod) := by
+    TempRel p ((List.range (p + 1 - j - s)).foldl (gInner f (k - p + j)) lit) (gStep f k p s j mod) := by
   obtain ⟨hl, hr⟩ := h
   have e : p + 1 - j - s = p - j - s + 1 := by omega
-  rw [sweep_eq U u k (k - p + j) lit _ (by omega), insTempStep_eq, e]
+  rw [sweep_eq f (k - p + j) lit _ (by omega), e]
+  unfold gStep
   constructor
   · simp; omega
   · intro x
     rw [ptsGet_map_drop, ptsGet_map_drop, hr x]
     by_cases hx : x < p - j - s + 1
     · rw [if_pos hx, if_pos hx]
-      exact blend_congr U u k _ mod lit x (hr x) (hr (x + 1))
+      exact blend_congr f _ mod lit x (hr x) (hr (x + 1))
     · rw [if_neg hx, if_neg hx]
 
 end
